@@ -365,7 +365,7 @@ func cmdCheck(args []string) int {
 		}
 		budget := time.Duration(ts.BudgetS) * time.Second
 		if budget == 0 {
-			budget = 10 * time.Minute
+			budget = 15 * time.Minute
 		}
 		ex := &interp.Explorer{Prog: prog, Cfg: cfg, Workers: nw, Budget: budget}
 		res, err := ex.Run(entry, h.Fn)
